@@ -4,6 +4,7 @@ import json, os
 V = os.path.dirname(os.path.dirname(os.path.abspath(__file__)))
 TECH = "TLA+ model checked with TLC; TLC-generated behaviours replayed on the real library; recorded traces validated by TLC"
 C = {
+ "C18": ("model_checking", "Console.tla carries the exported counters and an independent ghost count (C18_Metrics, exhaustive); on the real library the registry is gathered after every call and TLC compares every bmc_* key with MetricsLaw.tla's exact expected change, over exhaustive command outcome sequences and session/connection lifecycle histories", "6 C18"),
  "C03": ("exploration", "every in-session datagram recorded from the real library (honest sessions for all 9 suites with message lengths 0..40, long histories, exhaustive retry sequences) is parsed and judged by TLC against Wire.tla/Crypto.tla; quantifier is over inputs and histories, so this is exploration with trace validation", "6 C03"),
  "C12": ("model_checking", "selection function checked by TLC over every preference list (len 0..3 over 5 suites) x every advertised subset; the same cases and every algorithm triple in the Open Session Response replayed; the proposal on the wire is parsed by TLC", "6 C12"),
  "C16": ("model_checking", "CipherSelect.tla (chunked retrieval, record grammar) exhaustively for small record universes incl. malformed tails; generated record lists (0..20 records, exact multiples of 16) served by a rule-driven BMC and results compared by TLC with the specification", "6 C16"),
